@@ -621,3 +621,24 @@ impl<T: Modeled, S: Default + 'static> Modeled for GenStruct<T, S> {
 		2
 	}
 }
+
+/// Zero-sized in memory, one byte on the wire (the index of its only variant).
+#[derive(Encode, Decode, DecodeWithMemTracking, MaxEncodedLen, PartialEq, Eq, PartialOrd, Ord, Debug, Clone, Copy)]
+pub enum Marker {
+	#[codec(index = 42)]
+	Only,
+}
+impl Modeled for Marker {
+	fn ty(d: usize) -> String {
+		"adt enum 1 0 42 - 0".into()
+	}
+	fn val(&self, out: &mut String, c: bool) {
+		out.push_str("V 42 L 0");
+	}
+	fn gen(g: &mut G) -> Self {
+		Marker::Only
+	}
+	fn min_len() -> usize {
+		1
+	}
+}
